@@ -962,8 +962,19 @@ def run(ctx: Any, prog: Program) -> None:
                   func='<module>', text=f'{name} tuple arity')
     # fixed-point time: same scale both ways, sign-symmetric rounding to nearest
     tw, tr = dmx.func('_conv_time_to_binary'), dmx.func('_conv_binary_to_time')
-    scales_w = [n.right.value for n in ast.walk(tw) if isinstance(n, ast.BinOp) and isinstance(n.op, ast.Mult) and isinstance(n.right, ast.Constant)]
-    scales_r = [n.right.value for n in ast.walk(tr) if isinstance(n, ast.BinOp) and isinstance(n.op, ast.Div) and isinstance(n.right, ast.Constant)]
+    def _num(e: ast.AST) -> Any:
+        # a literal, or a module-level constant holding one (`_TIME_FIXED_SCALE = 10000.0`)
+        if isinstance(e, ast.Constant) and isinstance(e.value, (int, float)):
+            return e.value
+        if isinstance(e, ast.Name):
+            try:
+                g_ = dmx.global_assign(e.id)
+            except AnalysisError:
+                return None
+            return g_.value if isinstance(g_, ast.Constant) and isinstance(g_.value, (int, float)) else None
+        return None
+    scales_w = [_num(n.right) for n in ast.walk(tw) if isinstance(n, ast.BinOp) and isinstance(n.op, ast.Mult) and _num(n.right) is not None]
+    scales_r = [_num(n.right) for n in ast.walk(tr) if isinstance(n, ast.BinOp) and isinstance(n.op, ast.Div) and _num(n.right) is not None]
     recips_r = [n.right.value for n in ast.walk(tr) if isinstance(n, ast.BinOp) and isinstance(n.op, ast.Mult) and isinstance(n.right, ast.Constant) and isinstance(n.right.value, float)] + \
         [n.left.value for n in ast.walk(tr) if isinstance(n, ast.BinOp) and isinstance(n.op, ast.Mult) and isinstance(n.left, ast.Constant) and isinstance(n.left.value, float)]
     if len(scales_w) == 1 and not scales_r and len(recips_r) == 1:
@@ -981,6 +992,10 @@ def run(ctx: Any, prog: Program) -> None:
     if len(packs) != 1 or len(packs[0].args) != 1:
         raise AnalysisError('_conv_time_to_binary: pack call not found')
     q = packs[0].args[0]
+    if isinstance(q, ast.Name):
+        qd_ = [a.value for a in ast.walk(tw) if isinstance(a, ast.Assign) and any(isinstance(t, ast.Name) and t.id == q.id for t in a.targets)]
+        if len(qd_) == 1:
+            q = qd_[0]
     if isinstance(q, ast.Call) and dotted(q.func) == 'int' and len(q.args) == 1 and isinstance(q.args[0], ast.Call) and dotted(q.args[0].func) == 'round':
         q = q.args[0]
     nearest = isinstance(q, ast.Call) and dotted(q.func) == 'round' and len(q.args) == 1
@@ -1276,6 +1291,19 @@ def run(ctx: Any, prog: Program) -> None:
         stubbed = [y for b in blk for y in ast.walk(b) if isinstance(y, ast.Call) and (dotted(y.func) or '').endswith('StubElement.stub') and y.args and isinstance(y.args[0], ast.Name) and y.args[0].id in names_]
         stored = [b for b in blk if any(y in list(ast.walk(b)) for y in stubbed) and (isinstance(b, (ast.Assign, ast.AugAssign)) or (isinstance(b, ast.Expr) and isinstance(b.value, ast.Call) and isinstance(b.value.func, ast.Attribute)
                                                                                                                                  and b.value.func.attr in ('append', 'insert', 'extend')))]
+        if not stored:
+            # the stub may be made in a nested statement of the block (`try: s = stubs[id] / except KeyError: s = stubs[id] = StubElement.stub(id)`)
+            # and stored from the local afterwards
+            for y in stubbed:
+                sy = dmx.parents.get(y)
+                while sy is not None and not isinstance(sy, ast.stmt):
+                    sy = dmx.parents.get(sy)
+                if isinstance(sy, ast.Assign):
+                    locs_ = {t.id for t in sy.targets if isinstance(t, ast.Name)}
+                    kept_ = [b for b in blk if (isinstance(b, ast.Assign) and isinstance(b.value, ast.Name) and b.value.id in locs_ and any(isinstance(t, (ast.Attribute, ast.Subscript)) for t in b.targets))
+                             or (isinstance(b, ast.Expr) and isinstance(b.value, ast.Call) and isinstance(b.value.func, ast.Attribute) and b.value.func.attr in ('append', 'insert') and any(isinstance(a_, ast.Name) and a_.id in locs_ for a_ in b.value.args))]
+                    if kept_:
+                        stored = kept_
         ctx.check('C14.X12', bool(stored), dmx, c, f'_parse_kv2_element queues the reference `{U(c.args[0])[:50]}` for the fix-up pass but stores no `StubElement.stub(<id>)` for it: an id that is not defined in the file is never '
                   'filled in, so the attribute silently stays NULL and the id is lost', func='Element._parse_kv2_element', text=f'queued reference at `{U(c)[:40]}` holds a stub')
 
